@@ -2,7 +2,7 @@
    every type of the universe without bit sequences (those are tied by the
    correspondence check only). *)
 Require Import Scale.Bytes Scale.Eres Scale.Prog Scale.ProgFacts Scale.ProgMore Scale.Chunks Scale.CompactImpl
-  Scale.CompactSpec Scale.CompactProofs Scale.CompactTheorems Scale.Utf8 Scale.Codec Scale.CodecEnc Scale.CodecDec.
+  Scale.CompactSpec Scale.CompactProofs Scale.CompactTheorems Scale.Utf8 Scale.Codec Scale.CodecEnc Scale.CodecDec Scale.Bits.
 
 (* ---------- inversion of the encoder combinators ---------- *)
 Lemma eapp_ok a b bs : eapp a b = EOk bs -> exists x y, a = EOk x /\ b = EOk y /\ bs = x ++ y.
@@ -171,17 +171,6 @@ Lemma oeq_node sz c : oeq (node sz c) c.
 Proof. intros known bs. unfold node. rewrite runo_bind. destruct (runo c known bs); reflexivity. Qed.
 
 (* ---------- the theorem ---------- *)
-Fixpoint nobits (t : ty) : bool :=
-  match t with
-  | TBits _ _ => false
-  | TOption t' | TColl _ _ t' | TArray _ t' | TBox _ t' => nobits t'
-  | TResult a b | TPair a b => nobits a && nobits b
-  | TEnum vs => nobits_vars vs
-  | _ => true
-  end
-with nobits_vars (vs : variants) : bool :=
-  match vs with VsNil => true | VsCons _ t r => nobits t && nobits_vars r end.
-
 Lemma enc_count_spec n : N.of_nat n <=? u32max = true -> enc_count spec_c n = EOk (spec_compact (N.of_nat n)).
 Proof. intros H. apply N.leb_le in H. unfold enc_count, spec_c. destruct (N.ltb_spec u32max (N.of_nat n)); [lia|reflexivity]. Qed.
 
@@ -189,6 +178,41 @@ Lemma okwidth4 : okwidth 4. Proof. unfold okwidth; auto. Qed.
 
 Lemma u32_fits n : N.of_nat n <=? u32max = true -> N.of_nat n < 2 ^ (8 * 4).
 Proof. intros H. apply N.leb_le in H. unfold u32max in H. change (2 ^ (8 * 4)) with 4294967296. lia. Qed.
+
+(* bit sequences: the words are the padded chunks; the first `bits` of them are the sequence *)
+Lemma rt_bits B msb l bs known rest :
+  okB B = true -> B <=? 8 = true -> N.of_nat (length l) <? 2 ^ 29 = true ->
+  enc spec_c (TBits B msb) (VBits l) = EOk bs ->
+  runo (dec (TBits B msb)) known (bs ++ rest) = OOk (VBits l) rest.
+Proof.
+  intros HB HB8 Hlen He. apply N.ltb_lt in Hlen. apply N.leb_le in HB8. pose proof (okB_pos B HB) as Hpos.
+  cbn [enc] in He. destruct (N.ltb_spec (2 ^ 29 - 1) (N.of_nat (length l))) as [Hbig|_]; [change (2 ^ 29) with 536870912 in *; lia|].
+  apply eapp_ok in He as (x & y & Hx & [= <-] & ->). unfold spec_c in Hx. injection Hx as <-.
+  set (W := N.to_nat (8 * B)).
+  assert (HW: (0 < W)%nat) by (unfold W; lia).
+  destruct (chunks_spec W l HW) as ((k & Hcat) & Hall & Hcnt).
+  set (cs := chunks W l) in *.
+  cbn [dec]. rewrite runo_bind, <- app_assoc, rt_compact; [|apply okwidth4|change (2 ^ (8 * 4)) with 4294967296; change (2 ^ 29) with 536870912 in Hlen; lia].
+  destruct (N.ltb_spec (2 ^ 29 - 1) (N.of_nat (length l))) as [Hbig|_]; [change (2 ^ 29) with 536870912 in *; lia|].
+  assert (Hnw: (N.of_nat (length l) + 8 * B - 1) / (8 * B) = N.of_nat (length cs)).
+  { rewrite Hcnt. unfold W. rewrite N2Nat.id. reflexivity. }
+  rewrite Hnw.
+  rewrite <- (map_map (word_of_chunk B msb) (le_enc (N.to_nat B))).
+  rewrite runo_bind, rt_bulk.
+  - rewrite words_concat.
+    + rewrite map_map.
+      assert (Hpad: map (fun c => chunk_of_word B msb (word_of_chunk B msb c)) cs = map (pad_to W) cs).
+      { apply map_ext_in. intros c Hc. apply chunk_word_rt. rewrite Forall_forall in Hall. now apply Hall. }
+      rewrite Hpad, Hcat. rewrite app_length.
+      destruct (N.ltb_spec (N.of_nat (length l + length (repeat false k))) (N.of_nat (length l))) as [Hbad|_]; [lia|].
+      cbn [runo]. rewrite Nat2N.id, firstn_app, Nat.sub_diag, firstn_all. cbn [firstn]. now rewrite app_nil_r.
+    + lia.
+    + apply Forall_forall. intros w Hw. apply in_map_iff in Hw as [c [<- Hc]]. apply word_lt. rewrite Forall_forall in Hall. now apply Hall.
+  - lia.
+  - rewrite (concat_length_uniform (N.to_nat B)).
+    + rewrite !map_length. nia.
+    + apply Forall_forall. intros z Hz. apply in_map_iff in Hz as [n [<- _]]. apply le_enc_len.
+Qed.
 
 Definition RT (t : ty) : Prop :=
   forall v bs, wf t v = true -> enc spec_c t v = EOk bs ->
@@ -203,44 +227,44 @@ Proof.
 Qed.
 
 Theorem roundtrip_mut :
-  (forall t, nobits t = true -> wf_ty t = true -> RT t) /\
-  (forall vs, nobits_vars vs = true -> wf_vars_ty vs = true ->
+  (forall t, wf_ty t = true -> RT t) /\
+  (forall vs, wf_vars_ty vs = true ->
      forall k v bs, idx_ok vs = true -> wf_vars vs k v = true -> enc_vars spec_c vs k v = EOk bs ->
      exists i pb, bs = byte_of i :: pb /\ i < 256 /\ idx_in i vs = true /\
        forall known rest k0, runo (dec_vars vs i k0) known (pb ++ rest) = OOk (VVar (k0 + k) (canon_vars vs k v)) rest).
 Proof.
-  apply ty_variants_ind; unfold RT; cbn [nobits nobits_vars wf_ty wf_vars_ty].
-  - (* TUnit *) intros _ _ [ | | | | | | | | | | ] bs; cbn [wf enc]; try discriminate. intros _ [= <-] known rest. reflexivity.
-  - (* TBool *) intros _ _ [ |b| | | | | | | | | ] bs; cbn [wf enc]; try discriminate. intros _ [= <-] known rest.
+  apply ty_variants_ind; unfold RT; cbn [wf_ty wf_vars_ty].
+  - (* TUnit *) intros _ [ | | | | | | | | | | ] bs; cbn [wf enc]; try discriminate. intros _ [= <-] known rest. reflexivity.
+  - (* TBool *) intros _ [ |b| | | | | | | | | ] bs; cbn [wf enc]; try discriminate. intros _ [= <-] known rest.
     destruct b; reflexivity.
-  - (* TPrim *) intros B _ HB [ | |n| | | | | | | | ] bs; cbn [wf enc dec]; try discriminate.
+  - (* TPrim *) intros B HB [ | |n| | | | | | | | ] bs; cbn [wf enc dec]; try discriminate.
     intros H. apply andb_prop in H as [_ Hn]. rewrite Hn. intros [= <-] known rest.
     rewrite runo_bind, rt_prim; [reflexivity|exact HB|now apply N.ltb_lt].
-  - (* TCompact *) intros B _ HB [ | |n| | | | | | | | ] bs; cbn [wf enc dec]; try discriminate.
+  - (* TCompact *) intros B HB [ | |n| | | | | | | | ] bs; cbn [wf enc dec]; try discriminate.
     intros H. apply andb_prop in H as [_ Hn]. rewrite Hn. unfold spec_c. intros [= <-] known rest.
     rewrite runo_bind, rt_compact; [reflexivity|now apply okB_okwidth|now apply N.ltb_lt].
-  - (* TNonZero *) intros B _ HB [ | |n| | | | | | | | ] bs; cbn [wf enc dec]; try discriminate.
+  - (* TNonZero *) intros B HB [ | |n| | | | | | | | ] bs; cbn [wf enc dec]; try discriminate.
     intros H. apply andb_prop in H as [H Hn]. apply andb_prop in H as [_ H0]. rewrite H0, Hn. cbn [andb].
     intros [= <-] known rest. rewrite runo_bind, rt_prim; [|exact HB|now apply N.ltb_lt].
     apply N.ltb_lt in H0. destruct (N.eqb_spec n 0); [lia|reflexivity].
-  - (* TOption *) intros t IH Hb Ht [ | | | |v'| | | | | | ] bs; cbn [wf enc dec canon]; try discriminate.
+  - (* TOption *) intros t IH Ht [ | | | |v'| | | | | | ] bs; cbn [wf enc dec canon]; try discriminate.
     + intros _ [= <-] known rest. reflexivity.
     + intros Hv He known rest. apply eapp_ok in He as (x & y & [= <-] & Hy & ->).
-      cbn [app read_byte bindp runo Byte.to_N]. rewrite runo_bind, (IH Hb Ht v' y Hv Hy). reflexivity.
-  - (* TResult *) intros t IHt e IHe Hb H. apply andb_prop in Hb as [Hbt Hbe]. apply andb_prop in H as [Ht He].
+      cbn [app read_byte bindp runo Byte.to_N]. rewrite runo_bind, (IH Ht v' y Hv Hy). reflexivity.
+  - (* TResult *) intros t IHt e IHe H. apply andb_prop in H as [Ht He].
     intros [ | | | | |v'|v'| | | | ] bs; cbn [wf enc dec canon]; try discriminate.
     + intros Hv Hx known rest. apply eapp_ok in Hx as (x & y & [= <-] & Hy & ->).
-      cbn [app read_byte bindp runo Byte.to_N]. rewrite runo_bind, (IHt Hbt Ht v' y Hv Hy). reflexivity.
+      cbn [app read_byte bindp runo Byte.to_N]. rewrite runo_bind, (IHt Ht v' y Hv Hy). reflexivity.
     + intros Hv Hx known rest. apply eapp_ok in Hx as (x & y & [= <-] & Hy & ->).
-      cbn [app read_byte bindp runo Byte.to_N]. rewrite runo_bind, (IHe Hbe He v' y Hv Hy). reflexivity.
-  - (* TOptionBool *) intros _ _ [ | | |  |[ |[|]| | | | | | | | | ]| | | | | | ] bs; cbn [wf enc]; try discriminate;
+      cbn [app read_byte bindp runo Byte.to_N]. rewrite runo_bind, (IHe He v' y Hv Hy). reflexivity.
+  - (* TOptionBool *) intros _ [ | | |  |[ |[|]| | | | | | | | | ]| | | | | | ] bs; cbn [wf enc]; try discriminate;
       intros _ [= <-] known rest; reflexivity.
-  - (* TColl *) intros k sz t IH Hb H. apply andb_prop in H as [Ht Hsz]. apply N.leb_le in Hsz.
+  - (* TColl *) intros k sz t IH H. apply andb_prop in H as [Ht Hsz]. apply N.leb_le in Hsz.
     intros [ | | | | | | |l| | | ] bs; cbn [wf enc]; try discriminate.
     intros Hw He known rest. apply andb_prop in Hw as [Hw Hsorted]. apply andb_prop in Hw as [Hl Hn].
     apply eapp_ok in He as (x & y & Hx & Hy & ->). rewrite (enc_count_spec _ Hn) in Hx. injection Hx as <-.
     cbn [dec]. rewrite runo_bind, <- app_assoc, rt_compact by (apply okwidth4 || now apply u32_fits).
-    pose proof (rt_items t l y known rest (IH Hb Ht) Hl Hy) as Hitems.
+    pose proof (rt_items t l y known rest (IH Ht) Hl Hy) as Hitems.
     assert (Hvec: runo (match t with
                         | TPrim B => bs <- bulk_bytes B (N.of_nat (length l)) ;; Ret (map VN (words B bs))
                         | _ => emit HDescend ;;; l0 <- chunked_items sz (N.of_nat (length l)) (dec t) ;; emit HAscend ;;; Ret l0
@@ -265,16 +289,16 @@ Proof.
     + rewrite !runo_emit, runo_bind, (oeq_rep _ _ _ _ (oeq_node sz (dec t))), Hitems. reflexivity.
     + rewrite !runo_emit, runo_bind, (oeq_rep _ _ _ _ (oeq_node sz (dec t))), Hitems. cbn [bindp runo is_keyed]. now rewrite canon_set_id.
     + rewrite !runo_emit, runo_bind, (oeq_rep _ _ _ _ (oeq_node sz (dec t))), Hitems. cbn [bindp runo is_keyed]. now rewrite canon_set_id.
-  - (* TStr *) intros _ _ [ | | | | | | |l| | | ] bs; cbn [wf enc]; try discriminate.
+  - (* TStr *) intros _ [ | | | | | | |l| | | ] bs; cbn [wf enc]; try discriminate.
     intros Hw He known rest. apply andb_prop in Hw as [Hn Hu].
     destruct (bytes_of_vals l) as [bl|] eqn:Eb; [|discriminate].
     apply eapp_ok in He as (x & y & Hx & [= <-] & ->). rewrite (enc_count_spec _ Hn) in Hx. injection Hx as <-.
     cbn [dec]. rewrite runo_bind, <- app_assoc, rt_compact by (apply okwidth4 || now apply u32_fits).
     rewrite runo_bind, rt_bulk; [|lia|rewrite (bytes_of_vals_len _ _ Eb); lia].
     rewrite Hu. cbn [runo canon]. now rewrite (bytes_of_vals_inv _ _ Eb).
-  - (* TArray *) intros n t IH Hb Ht [ | | | | | | |l| | | ] bs; cbn [wf enc]; try discriminate.
+  - (* TArray *) intros n t IH Ht [ | | | | | | |l| | | ] bs; cbn [wf enc]; try discriminate.
     intros Hw He known rest. apply andb_prop in Hw as [Hl Hn]. rewrite Hn in He. apply N.eqb_eq in Hn. subst n.
-    pose proof (rt_items t l bs known rest (IH Hb Ht) Hl He) as Hitems.
+    pose proof (rt_items t l bs known rest (IH Ht) Hl He) as Hitems.
     cbn [dec canon].
     assert (Hgen: runo (items <- rep (N.of_nat (length l)) (dec t) ;; Ret (VSeq items)) known (bs ++ rest)
                   = OOk (VSeq (map (canon t) l)) rest).
@@ -288,15 +312,15 @@ Proof.
     + rewrite (concat_length_uniform (N.to_nat B)).
       * rewrite !map_length. nia.
       * apply Forall_forall. intros z Hz. apply in_map_iff in Hz as [n [<- _]]. apply le_enc_len.
-  - (* TPair *) intros a IHa b IHb Hb H. apply andb_prop in Hb as [Hba Hbb]. apply andb_prop in H as [Ha Hb'].
+  - (* TPair *) intros a IHa b IHb H. apply andb_prop in H as [Ha Hb'].
     intros [ | | | | | | | |x y| | ] bs; cbn [wf enc]; try discriminate.
     intros Hw He known rest. apply andb_prop in Hw as [Hx Hy].
     apply eapp_ok in He as (bx & by' & Ex & Ey & ->).
-    cbn [dec canon]. rewrite runo_bind, <- app_assoc, (IHa Hba Ha x bx Hx Ex).
-    rewrite runo_bind, (IHb Hbb Hb' y by' Hy Ey). reflexivity.
-  - (* TBox *) intros sz t IH Hb Ht v bs Hw He known rest. cbn [wf enc canon dec] in *.
-    rewrite !runo_emit, runo_bind, (IH Hb Ht v bs Hw He). reflexivity.
-  - (* TDuration *) intros _ _ [ | | | | | | | |[ | |s| | | | | | | | ] [ | | | | | | | |[ | |n| | | | | | | | ] [ | | | | | | | | | | ]| | ]| | ] bs;
+    cbn [dec canon]. rewrite runo_bind, <- app_assoc, (IHa Ha x bx Hx Ex).
+    rewrite runo_bind, (IHb Hb' y by' Hy Ey). reflexivity.
+  - (* TBox *) intros sz t IH Ht v bs Hw He known rest. cbn [wf enc canon dec] in *.
+    rewrite !runo_emit, runo_bind, (IH Ht v bs Hw He). reflexivity.
+  - (* TDuration *) intros _ [ | | | | | | | |[ | |s| | | | | | | | ] [ | | | | | | | |[ | |n| | | | | | | | ] [ | | | | | | | | | | ]| | ]| | ] bs;
       cbn [wf enc]; try discriminate.
     intros Hw He known rest. apply andb_prop in Hw as [Hs Hn]. apply N.ltb_lt in Hs, Hn. unfold a_billion in Hn.
     destruct (N.ltb_spec s (2 ^ 64)); [|lia]. destruct (N.ltb_spec n (2 ^ 32)); [|change (2 ^ 32) with 4294967296 in *; lia].
@@ -304,23 +328,25 @@ Proof.
     rewrite <- app_assoc, rt_read_bind by apply le_enc_len. rewrite rt_read_bind by apply le_enc_len.
     rewrite !le_dec_enc by (change (256 ^ N.of_nat 8) with (2 ^ 64) || change (256 ^ N.of_nat 4) with (2 ^ 32); assumption).
     unfold a_billion. destruct (N.leb_spec 1000000000 n); [lia|]. reflexivity.
-  - (* TBits *) intros B msb Hb. discriminate.
-  - (* TEnum *) intros vs IH Hb Hvs [ | | | | | | | | | |k v'] bs; cbn [wf enc]; try discriminate.
+  - (* TBits *) intros B msb H [ | | | | | | | | |l| ] bs; cbn [wf]; try discriminate.
+    intros Hw He known rest. apply andb_prop in Hw as [Hw Hlen]. apply andb_prop in Hw as [HB HB8].
+    cbn [canon]. now apply rt_bits.
+  - (* TEnum *) intros vs IH Hvs [ | | | | | | | | | |k v'] bs; cbn [wf enc]; try discriminate.
     intros Hw He known rest. apply andb_prop in Hw as [Hidx Hw].
-    destruct (IH Hb Hvs k v' bs Hidx Hw He) as (i & pb & -> & Hi & _ & Hdec).
+    destruct (IH Hvs k v' bs Hidx Hw He) as (i & pb & -> & Hi & _ & Hdec).
     cbn [dec app read_byte bindp runo canon]. rewrite to_byte_of, N.mod_small by exact Hi.
     apply (Hdec known rest 0%nat).
-  - (* VsNil *) intros _ _ k v bs _ H. discriminate.
-  - (* VsCons *) intros idx t IHt vs IHvs Hb H. apply andb_prop in Hb as [Hbt Hbvs]. apply andb_prop in H as [Ht Hvs].
+  - (* VsNil *) intros _ k v bs _ H. discriminate.
+  - (* VsCons *) intros idx t IHt vs IHvs H. apply andb_prop in H as [Ht Hvs].
     intros [|k] v bs Hidx Hw He; cbn [idx_ok wf_vars enc_vars] in *.
     + apply andb_prop in Hidx as [Hidx _]. apply andb_prop in Hidx as [Hlt _]. rewrite Hlt in He.
       apply eapp_ok in He as (x & y & [= <-] & Hy & ->). apply N.ltb_lt in Hlt.
       exists idx, y. repeat split; auto.
       * cbn [idx_in]. now rewrite N.eqb_refl.
       * intros known rest k0. cbn [dec_vars canon_vars]. rewrite N.mod_small by exact Hlt. rewrite N.eqb_refl.
-        rewrite runo_bind, (IHt Hbt Ht v y Hw Hy). cbn [runo]. now rewrite Nat.add_0_r.
+        rewrite runo_bind, (IHt Ht v y Hw Hy). cbn [runo]. now rewrite Nat.add_0_r.
     + apply andb_prop in Hidx as [Hidx Hrest]. apply andb_prop in Hidx as [Hlt Hnotin].
-      destruct (IHvs Hbvs Hvs k v bs Hrest Hw He) as (i & pb & -> & Hi & Hin & Hdec).
+      destruct (IHvs Hvs k v bs Hrest Hw He) as (i & pb & -> & Hi & Hin & Hdec).
       exists i, pb. repeat split; auto.
       * cbn [idx_in]. rewrite Hin. apply orb_true_r.
       * intros known rest k0. cbn [dec_vars canon_vars]. apply N.ltb_lt in Hlt. rewrite N.mod_small by exact Hlt.
@@ -330,6 +356,6 @@ Proof.
 Qed.
 
 Theorem roundtrip t v bs known rest :
-  nobits t = true -> wf_ty t = true -> wf t v = true -> enc_spec t v = EOk bs ->
+  wf_ty t = true -> wf t v = true -> enc_spec t v = EOk bs ->
   runo (dec t) known (bs ++ rest) = OOk (canon t v) rest.
-Proof. intros Hb Ht Hw He. exact (proj1 roundtrip_mut t Hb Ht v bs Hw He known rest). Qed.
+Proof. intros Ht Hw He. exact (proj1 roundtrip_mut t Ht v bs Hw He known rest). Qed.
